@@ -158,7 +158,15 @@ def gen_sched_script(rs: int, knobs: Optional[dict] = None) -> dict:
                 sid = f"S{n}"
                 n += 1
                 at = r.randint(0, horizon_us)
-                ops.append({"op": "add", "source": si, "at_us": at, "sched": gen_sched(r, sid, kn, start_us, horizon_us)})
+                sc = gen_sched(r, sid, kn, start_us, horizon_us)
+                if r.random() < 0.4:
+                    # created through task.kicker().schedule_by_time / schedule_by_cron (a CronSpec carries the offset)
+                    sc["cronspec"] = sc.get("cron") is not None and (sc.get("offset") is not None or r.random() < 0.5)
+                    if sc.get("cron") is not None and not sc["cronspec"]:
+                        sc["offset"] = None
+                    ops.append({"op": "create", "source": si, "at_us": at, "sched": sc})
+                else:
+                    ops.append({"op": "add", "source": si, "at_us": at, "sched": sc})
             else:
                 ops.append({"op": "remove", "source": si, "at_us": r.randint(0, horizon_us), "id": r.choice(sources[si]["schedules"])["id"]})
     all_ids = [f"S{i}" for i in range(n)]
